@@ -9,30 +9,25 @@ From Shexer Require Import Lib.PyStr Spec.Rdf Spec.TtlSyntax.
 Import ListNotations.
 
 Inductive rc :=
-| RC_ini_base          (* <#f> / </p> against @base: the first character is dropped *)
+| RC_ini_base          (* </p> against @base: the '/' is dropped and the rest appended to the base *)
 | RC_concat            (* relative reference resolved by plain concatenation with the base *)
-| RC_abs_test          (* "absolute" is tested as startswith("http") *)
-| RC_double_base       (* a base not starting with "http" is applied twice *)
-| RC_replace_all       (* pfx: replaced at every occurrence in a prefixed name *)
 | RC_dt_custom_prefix  (* datatype written with a prefix other than xsd/rdf/dt/geo: raises *)
 | RC_dt_hardwired      (* the four prefixes / namespaces are searched as text in the whole token *)
 | RC_lang_marker       (* '@' in the datatype IRI: typed rdf:langString *)
 | RC_typed_marker      (* quote ^^ inside the lexical form *)
-| RC_quote_regex       (* comment scan misses the quote at column 0, of "" and after \\ *)
-| RC_first_literal     (* comment scan protects only the first literal of a line *)
-| RC_comment_quote     (* quotes in comments are scanned as literal delimiters *)
 | RC_dir_unresolved    (* IRI of @prefix/@base never resolved against the base *)
 | RC_ws_in_literal     (* tab / repeated blank inside a lexical form (content altered; not a finding) *)
 | RC_long_number.      (* integer of more than 300 digits (float() overflow; not modelled) *)
+(** Repaired and therefore gone from this list (see known_findings.json, status fixed): the '#'
+    of <#frag> dropped, "absolute" tested as startswith("http"), a non-http base applied twice,
+    pfx: replaced at every occurrence, and the three faults of the comment scan. *)
 
 Definition rc_eqb (a b : rc) : bool :=
   match a, b with
-  | RC_ini_base, RC_ini_base | RC_concat, RC_concat | RC_abs_test, RC_abs_test
-  | RC_double_base, RC_double_base | RC_replace_all, RC_replace_all
+  | RC_ini_base, RC_ini_base | RC_concat, RC_concat
   | RC_dt_custom_prefix, RC_dt_custom_prefix | RC_dt_hardwired, RC_dt_hardwired
   | RC_lang_marker, RC_lang_marker | RC_typed_marker, RC_typed_marker
-  | RC_quote_regex, RC_quote_regex | RC_first_literal, RC_first_literal
-  | RC_comment_quote, RC_comment_quote | RC_dir_unresolved, RC_dir_unresolved
+  | RC_dir_unresolved, RC_dir_unresolved
   | RC_ws_in_literal, RC_ws_in_literal | RC_long_number, RC_long_number => true
   | _, _ => false
   end.
@@ -46,18 +41,15 @@ Definition http : str := Str "http".
 (** an IRI reference in node position *)
 Definition rc_ref (e : env) (r : iri_ref) : list rc :=
   match r with
-  | IAbs i => when (is_some (e_base e) && negb (prefixb http i)) RC_abs_test
+  | IAbs i => []
   | IRel x =>
     match e_base e with
     | None => []
     | Some b =>
-      when (first_ok (fun c => in_str c "#/") x && negb (Nat.eqb (List.length x) 0)) RC_ini_base ++
-      when (prefixb http x) RC_abs_test ++
-      when (negb (prefixb http b)) RC_double_base ++
+      when (first_ok (fun c => in_str c "/") x && negb (Nat.eqb (List.length x) 0)) RC_ini_base ++
       when (match resolve b x with Some u => negb (str_eqb u (b ++ x)) | None => false end) RC_concat
     end
   | IPre p l =>
-    when (contains (p ++ Str ":") l) RC_replace_all ++
     when (str_eqb (render_ref r) (Str "rdf:type") &&
           negb (match lookup p (e_prefixes e) with Some ns => str_eqb ns rdf_ns | None => true end)) RC_dt_hardwired
   end.
@@ -89,15 +81,12 @@ Definition rc_lit (e : env) (lex : str) (sfx : lit_suffix) : list rc :=
                   match lookup p (e_prefixes e) with Some ns' => str_eqb ns ns' | None => false end))
            RC_dt_hardwired
     | _, Some _ => [RC_dt_hardwired]
-    | IAbs i, None =>
-      when (negb (existsb (fun w => contains (snd w) tok) wired) &&
-            is_some (e_base e) && negb (prefixb http i)) RC_abs_test
+    | IAbs i, None => []
     | IRel x, None =>
       when (existsb (fun w => contains (snd w) tok) wired) RC_dt_hardwired ++
       match e_base e with
       | None => []
       | Some b =>
-        when (prefixb http x) RC_abs_test ++
         when (match resolve b x with Some u => negb (str_eqb u (b ++ x)) | None => false end) RC_concat
       end
     end
@@ -132,67 +121,16 @@ Fixpoint rc_doc (e : env) (d : doc) : list rc :=
   | IGrp g :: d' => rc_group e g ++ rc_doc e d'
   end.
 
-(** ** layout level *)
+(** ** layout level
+
+    Since the comment scan was repaired no layout choice is a root cause any
+    more: [C07_rcs] depends on the document only. *)
 
 Definition lex_of (t : atok) : option str :=
   match t with AObj (OLit lex _) => Some lex | _ => None end.
 
-Fixpoint lexes (ts : list atok) : list str :=
-  match ts with
-  | [] => []
-  | t :: ts' => match lex_of t with Some l => l :: lexes ts' | None => lexes ts' end
-  end.
-
-(** blank-# in a lexical form; a tab before the # becomes a blank when the line is cleaned *)
-Definition hash_in (lex : str) : bool := contains (Str " #") lex || contains [ascii_of_nat 9; chr "#"] lex.
-
-(** a quote preceded by a backslash in a comment: on a line without string
-    literal the comment scan then finds no quote position at all *)
-Definition escaped_quote_in (cmt : option str) : bool :=
-  match cmt with Some t => contains (Str "\""") t | None => false end.
-
-Definition rc_line (l : line) : list rc :=
-  match l with
-  | LDir _ _ _ cmt => when (escaped_quote_in cmt) RC_comment_quote
-  | LToks _ [] cmt =>
-    match cmt with
-    | Some t => when (contains (Str """") t && contains (Str "#") t) RC_comment_quote
-    | None => []
-    end
-  | LToks _ (tg :: toks) cmt =>
-    let ts := fst tg :: map fst toks in
-    let ls := lexes ts in
-    if negb (is_some cmt) && negb (existsb hash_in ls) then []
-    else match ls with
-         | [] => when (escaped_quote_in cmt) RC_comment_quote
-         | l1 :: rest =>
-           when (is_some (lex_of (fst tg)) || Nat.eqb (List.length l1) 0 ||
-                 negb (last_ok (fun c => negb (Ascii.eqb c (chr "\"))) l1)) RC_quote_regex ++
-           when (existsb hash_in rest) RC_first_literal
-         end
-  end.
-
-Definition C07_rcs (ls : list line) (d : doc) : list rc := rc_doc env0 d ++ flat_map rc_line ls.
+Definition C07_rcs (ls : list line) (d : doc) : list rc := rc_doc env0 d.
 
 (** the proved domain: no root cause present *)
 Definition C07_dom (ls : list line) (d : doc) : bool :=
   match C07_rcs ls d with [] => true | _ => false end.
-
-(** ** the additional restrictions of the partial theorem [C07_partial] *)
-
-(** lines on which [_clean_line] is PROVED right (the remaining
-    case -- a string literal and a comment, or blank-# inside a literal, on one
-    line -- is covered by the correspondence check only) *)
-Definition line_simple (l : line) : bool :=
-  match l with
-  | LToks _ toks cmt =>
-    match lexes (map fst toks) with
-    | [] => match cmt with Some t => negb (contains (Str """") t) | None => true end
-    | ls => negb (is_some cmt) && negb (existsb hash_in ls)
-    end
-  | LDir _ _ _ cmt => match cmt with Some t => negb (contains (Str """") t) | None => true end
-  end.
-
-
-Definition C07_partial_dom (ls : list line) (d : doc) : bool :=
-  C07_dom ls d && forallb line_simple ls.
